@@ -369,3 +369,25 @@ package keeper
 //@   loop L5 invariant -1 <= rangeindex && rangeindex < len(shard.RenewInfos)
 //@   loop L5 invariant shard.CreatedAt + shard.Duration + sumDur(shard.RenewInfos, len(shard.RenewInfos)) <= MaxUint64
 //@   loop L5 invariant [C11.renew.end] shardExpiredAt == shard.CreatedAt + shard.Duration + sumDur(shard.RenewInfos, rangeindex + 1)
+
+// GetAllTimeoutOrder: the genesis export of the TimeoutOrder store - every stored record, each exactly as stored
+//@ func (Keeper) GetAllTimeoutOrder(ctx) (list)
+//@   modifies nothing
+//@   ensures [C18.getall.timeoutorder.stored] forall j int :: 0 <= j && j < len(list) ==> has(TimeoutOrder, list[j].Height) && TimeoutOrder[list[j].Height] == list[j]
+//@   ensures [C18.getall.timeoutorder.complete] forall c int :: 0 <= c && c <= MaxUint64 && has(TimeoutOrder, c) ==> contains(list, TimeoutOrder[c])
+//@   ensures [C18.getall.timeoutorder.distinct] forall a int, b int :: 0 <= a && a < b && b < len(list) ==> list[a].Height != list[b].Height
+//@   loop L1 invariant 0 <= itpos() && itpos() <= itlen() && len(list) == itpos()
+//@   loop L1 invariant forall j int :: 0 <= j && j < len(list) ==> list[j] == rawget(TimeoutOrder, itkey(j)) && itkey(j) == keyof(TimeoutOrder, list[j].Height)
+//@   loop L1 invariant forall j int :: 0 <= j && j < len(list) ==> contains(list, list[j])
+//@   loop L1 decreases [C02.getall.timeoutorder.term] itlen() - itpos()
+
+// GetAllExpiredShard: the genesis export of the ExpiredShard store - every stored record, each exactly as stored
+//@ func (Keeper) GetAllExpiredShard(ctx) (list)
+//@   modifies nothing
+//@   ensures [C18.getall.expiredshard.stored] forall j int :: 0 <= j && j < len(list) ==> has(ExpiredShard, list[j].Height) && ExpiredShard[list[j].Height] == list[j]
+//@   ensures [C18.getall.expiredshard.complete] forall c int :: 0 <= c && c <= MaxUint64 && has(ExpiredShard, c) ==> contains(list, ExpiredShard[c])
+//@   ensures [C18.getall.expiredshard.distinct] forall a int, b int :: 0 <= a && a < b && b < len(list) ==> list[a].Height != list[b].Height
+//@   loop L1 invariant 0 <= itpos() && itpos() <= itlen() && len(list) == itpos()
+//@   loop L1 invariant forall j int :: 0 <= j && j < len(list) ==> list[j] == rawget(ExpiredShard, itkey(j)) && itkey(j) == keyof(ExpiredShard, list[j].Height)
+//@   loop L1 invariant forall j int :: 0 <= j && j < len(list) ==> contains(list, list[j])
+//@   loop L1 decreases [C02.getall.expiredshard.term] itlen() - itpos()
